@@ -20,13 +20,14 @@ PROP = "C10"
 RUNS = {"quick": 6000, "thorough": 120000}
 WALL_CAP = {"quick": 300.0, "thorough": 3000.0}
 
-NAME_POOL = ["users", "orders", "items", "t_x", "acc", "posts", "m2m", "zeta"]
-COL_POOL = ["id", "name", "val", "ref_id", "status", "created_at", "k", "x1"]
-TYPES = ["int", "varchar", "text", "varchar(255)", "timestamp"]
+NAME_POOL = ["users", "orders", "items", "t_x", "acc", "posts", "m2m", "zeta", "table", "ref", "note"]
+COL_POOL = ["id", "name", "val", "ref_id", "status", "created_at", "k", "x1", "indexes", "enum"]
+TYPES = ["int", "varchar", "text", "varchar(255)", "timestamp", "double precision", "decimal(10, 2)"]
 SCHEMAS = ["public", "public", "s1", "s2"]
 TEXTS = ["plain", "it's", "two words", "", "multi\nline", "a 'q' b", "x", "trailing \nspace  ", "gap\n\nline"]
 SIMPLE_TEXTS = ["plain", "two words", "x", "note one"]
-DEFAULTS = [None, 0, 1, 2.5, True, False, "", "str", "NULL", ["expr", "now()"], "it's"]
+DEFAULTS = [None, 0, 1, 2.5, True, False, "", "str", "NULL", ["expr", "now()"], "it's", "123", "-1", "1e3", "true",
+            -7, 10 ** 12, "  ", "x" * 300]
 ACTIONS = [None, "cascade", "set null", "no action", "restrict"]
 REFTYPES = [">", "<", "-", "<>"]
 IDXTYPES = [None, "btree", "hash"]
@@ -41,6 +42,7 @@ def gen_world(rng: random.Random, parse_friendly: bool) -> World:
     db = w.db(allow_properties=rng.random() < 0.5)
     d = w.m[db]
     d["share_notes"] = (not parse_friendly) and rng.random() < 0.3
+    d["add_order"] = rng.randrange(10)
     enums = []
     for k in range(rng.randint(0, 2)):
         e = w.enum(f"en{k}", [dict(name=n, note=rng.choice(["", rng.choice(txt)]) if rng.random() < 0.3 else "",
@@ -65,11 +67,12 @@ def gen_world(rng: random.Random, parse_friendly: bool) -> World:
                     properties={"tp": "v"} if rng.random() < 0.3 and (d["allow_properties"] or not parse_friendly) else None,
                     ctor_cols=rng.random() < 0.5)
         for cn in rng.sample(COL_POOL, rng.randint(1, 4)):
-            ty: Any = rng.choice(TYPES)
+            ty: Any = rng.choice(TYPES[:5] if parse_friendly else TYPES)
             if enums and rng.random() < 0.25:
                 ty = ["enum", rng.choice(enums)]
             dflt = rng.choice(DEFAULTS)
-            if parse_friendly and (dflt in ("", "NULL", 0, False) or isinstance(dflt, bool)):
+            if parse_friendly and (isinstance(dflt, bool) or dflt in ("", "NULL", 0, "123", "-1", "1e3", "true", "  ")
+                                   or (isinstance(dflt, int) and dflt < 0)):
                 dflt = None
             c = w.column(cn, ty, unique=rng.random() < 0.2, not_null=rng.random() < 0.2, pk=rng.random() < 0.25,
                          autoinc=rng.random() < 0.1, default=dflt,
@@ -402,7 +405,12 @@ class C10Engine:
 
     def compare(self, ctx: Any) -> None:
         self.w.share_notes = False
-        fresh = realize(self.w, self.env.C, self.env.renderers, via_add=True)
+        saved_order = self.w.m[self.db].get("add_order", 0)
+        self.w.m[self.db]["add_order"] = 0      # the fresh database is always built in the canonical order
+        try:
+            fresh = realize(self.w, self.env.C, self.env.renderers, via_add=True)
+        finally:
+            self.w.m[self.db]["add_order"] = saved_order
         a = self.render_all(self.real)
         b = self.render_all(fresh)
         self.count("probe:compared-with-fresh-rebuild")
@@ -518,6 +526,24 @@ class C10Engine:
         elif k == "glitch":
             if op[1] not in m or m[op[1]]["kind"] != "column":
                 return "not a column"
+        elif k == "readd":
+            h = op[1]
+            if h not in m or m[h]["kind"] not in ("table", "ref") or m[h].get("db") is not None:
+                return "not a deleted element"
+            if m[h]["kind"] == "table":
+                keys = w.keys_of(h)
+                have = w.db_keys(self.db)
+                if any(x in have for x in keys):
+                    return "table key clash"
+            else:
+                cs = m[h]["col1"] + m[h]["col2"]
+                if any(m[c]["table"] is None or m[m[c]["table"]]["db"] != self.db for c in cs):
+                    return "endpoint not in db"
+                m[self.db]["refs"].append(h)
+                clash = ref_clash(w, self.db, h)
+                m[self.db]["refs"].remove(h)
+                if clash:
+                    return "reference clash"
         elif k == "gitem_add":
             _, g, t = op
             if t not in m or m[t]["kind"] != "table" or m[t]["db"] != self.db or t in m[g]["items"]:
@@ -684,6 +710,12 @@ class C10Engine:
             m[c]["table"] = t2
             real[t1].delete_column(real[c])
             real[t2].add_column(real[c])
+        elif k == "readd":
+            h = op[1]
+            lst = "tables" if m[h]["kind"] == "table" else "refs"
+            m[self.db][lst].append(h)
+            m[h]["db"] = self.db
+            real[self.db].add(real[h])
         elif k == "glitch":
             # a required attribute is missing for a moment, a database-level rendering is attempted (and
             # refused), the attribute is restored: the model is what it was
@@ -885,6 +917,10 @@ def draw_op(rng: random.Random, eng: C10Engine) -> List[Any]:
         if rr < 0.12:
             cols = [c for t in tables for c in m[t]["cols"]]
             return ["glitch", rng.choice(cols), rng.choice(["type", "name"])]
+        gone = [h for h, dd in m.items() if dd["kind"] in ("table", "ref") and dd.get("db") is None and "col1" in dd or
+                dd["kind"] == "table" and dd.get("db") is None]
+        if gone and rr < 0.17:
+            return ["readd", rng.choice(gone)]
         if rr < 0.2:
             idxs = [i for t in tables for i in m[t]["idxs"]]
             if idxs and len(tables) > 1:
